@@ -316,6 +316,28 @@ func c16Scenario(depth, k, p int) mc.Scenario {
 						derive(s.Merge(w.live[j]), nm)
 					}})
 				}
+				for nt := 0; nt <= 1; nt++ {
+					nt := nt
+					ops = append(ops, op{fmt.Sprintf("Merge(fresh Struct{d} with %d tests)", nt), func() {
+						fresh := z.Struct(z.Schema{"d": c16Build("d")})
+						nm := m.clone()
+						nm.fields["d"] = "d"
+						for k := 0; k < nt; k++ {
+							id := w.nextID*2 + 1 // failing test: its issue shows whose test ran
+							w.nextID++
+							log := w.log
+							fresh.TestFunc(func(v any, ctx z.Ctx) bool {
+								*log = append(*log, fmt.Sprintf("t%d", id))
+								return false
+							}, z.IssueCode(fmt.Sprintf("t%d", id)))
+							nm.tests = append(nm.tests, id)
+						}
+						fresh.PostTransform(w.mkPost(w.nextID))
+						nm.posts = append(nm.posts, w.nextID)
+						w.nextID++
+						derive(s.Merge(fresh), nm)
+					}})
+				}
 				if len(w.live) == 2 {
 					ops = append(ops, op{"Merge(#0,#1)", func() {
 						nm := m.clone()
@@ -392,7 +414,7 @@ func c16Depth(tier string) int {
 func init() {
 	Register(&Prop{
 		ID:    "C16",
-		Rule:  "one execution = one builder history: base Struct{a,b,c} with 0..3 tests and 0..2 PostTransforms appended one by one (capacities 0,1,2,4), then ≤depth events, each applied to any of ≤3 live schemas from {Pick(keys|map), Omit(keys|map), Extend(new field | overriding field), Merge(other[, more]), Test, TestFunc, PostTransform}; after every event every live schema is probed (all fields valid; first field failing) on the real code and compared with the model's hand-built equivalent (tests run, their order, PostTransforms run, issues, destination). every history is non-trivial; distinct = distinct final model states of all live schemas",
+		Rule:  "one execution = one builder history: base Struct{a,b,c} with 0..3 tests and 0..2 PostTransforms appended one by one (capacities 0,1,2,4), then ≤depth events, each applied to any of ≤3 live schemas from {Pick(keys|map), Omit(keys|map), Extend(new field | overriding field), Merge(other live schema | a fresh one-field schema with 0..1 tests and a PostTransform [, more]), Test, TestFunc, PostTransform}; after every event every live schema is probed (all fields valid; first field failing) on the real code and compared with the model's hand-built equivalent (tests run, their order, PostTransforms run, issues, destination). every history is non-trivial; distinct = distinct final model states of all live schemas",
 		Floor: 50,
 		Bound: func(tier string) string { return fmt.Sprintf("all histories of depth ≤%d over ≤3 live schemas", c16Depth(tier)) },
 		Assumptions: []string{
